@@ -34,7 +34,8 @@ BASE_PROFILE: Dict[str, Any] = dict(
     mc=(1, 5), p_async=0.3, p_ret_const=0.12, p_reflect=0.2,
     p_nested_flag=0.3, p_same_inner_twice=0.0, p_p6=0.0, p_explicit_default=0.7,
     shape_bias=[("uniform", 3), ("recent", 2), ("early", 1), ("wide", 1)],
-    p_setup_in_nested=0.0, main_flat=False, all_return=False, p_inner_const=0.0, w_concat=1.0, p_tag_is_id=0.0, swarm=("resources", "p_dep", "max_args"),
+    p_setup_in_nested=0.0, main_flat=False, all_return=False, p_inner_const=0.0, w_concat=1.0, p_tag_is_id=0.0,
+    p_none_default=0.12, p_pass=0.1, swarm=("resources", "p_dep", "max_args"),
 )
 
 
@@ -50,7 +51,7 @@ SCHED = profile(w_op=0, w_uop=0, w_logic=0, w_nested=0, n_stmts=(2, 10), p_more=
                 p_flag=0.15, ret_shapes=[("tuple", 1)], all_return=True, p_ret_const=0, p_dep=0.85)
 # flat graph programs for selection / debug / setup / cache / compose
 GRAPH = profile(w_op=0, w_uop=0, w_logic=0, w_nested=0, n_stmts=(2, 11), p_more=0.82, p_kwarg=0.2,
-                ret_types=[("int", 1)], p_unpack=0, p_fn_unpack=0, n_params=(0, 2), p_flag=0.0,
+                ret_types=[("int", 7), ("none", 1)], p_unpack=0, p_fn_unpack=0, n_params=(0, 2), p_flag=0.0,
                 ret_shapes=[("tuple", 1)], all_return=True, p_ret_const=0, p_tag=0.3, p_dep=0.8,
                 p_index=0)
 FULL = profile()
@@ -143,7 +144,12 @@ class ProgramGen:
         if not any(s["k"] in ("call", "dag") for s in st["stmts"]) or (depth > 0 and not self._returnable(st)):
             self.gen_call(st, plain=True)
         p6 = depth > 0 and p["p_p6"] > 0 and d.bool(p["p_p6"])
-        ret = self.gen_ret(st, depth, p6)
+        passthrough = None
+        if depth == 0 and p["w_nested"] > 0 and p["max_depth"] > 0 and not p["all_return"] and d.bool(p["p_pass"]):
+            passthrough = self.gen_pass(st)
+        ret = {"shape": "pass", "items": [["v", passthrough, []]], "keys": []} if passthrough else self.gen_ret(st, depth, p6)
+        if passthrough:
+            st["ret_types"] = []
         plain = all(e[0] == "v" and not e[2] and self._plain_node_var(st, e[1]) for e in ret["items"])
         flaggable = (not st["has_flag"]) and (not st["has_setup"]) and ret["shape"] != "none" and (plain or p6)
         strict = set()
@@ -154,6 +160,8 @@ class ProgramGen:
                     strict.add(e[1])
         for x in params:
             x.append("int" if x[0] in strict else "any")
+            if x[1] and x[3] == "any" and d.bool(p["p_none_default"]):
+                x[2] = "None"   # a parameter whose default is None (omitted by callers)
         self.dags[dname] = dict(params=params, stmts=st["stmts"], ret=ret,
                                 mc=d.int(*p["mc"]), is_async=(depth == 0 and d.bool(p["p_async"])),
                                 flaggable=flaggable, has_flag=st["has_flag"], has_setup=st["has_setup"],
@@ -374,6 +382,38 @@ class ProgramGen:
         st["stmts"].append(dict(k="dag", dag=inner, args=args, flag=flag, out=outs, shape=ret["shape"],
                                 outkeys=outkeys))
 
+    def gen_pass(self, st: dict) -> Optional[str]:
+        """`_tK = inner(args)` bound as a whole (no unpacking) and returned as it is."""
+        d, p = self.d, self.prof
+        cands = [n for n in self.order if n != "main" and n not in st["used_inner"] and not self.dags[n].get("has_debug")
+                 and self.dags[n]["ret"]["shape"] in ("tuple", "list", "dict", "single")]
+        inner = d.pick(cands) if cands and d.bool(0.5) else self.gen_dag(st["depth"] + 1)
+        idag = self.dags[inner]
+        if idag["ret"]["shape"] in ("none", "pass") or idag.get("has_debug"):
+            return None
+        st["used_inner"].add(inner)
+        cands_v = [v for v in st["vars"] if not v.debug]
+        ints = [v for v in cands_v if v.type in ("int", "bool") and not v.nullable]
+        nreq = sum(1 for x in idag["params"] if not x[1])
+        nsup = nreq
+        while nsup < len(idag["params"]) and d.bool(p["p_explicit_default"]):
+            nsup += 1
+        args = []
+        for j in range(nsup):
+            if idag["params"][j][3] == "any":
+                args.append(self.arg_expr(cands_v))
+            elif ints and d.bool(p["p_dep"]):
+                args.append(["v", self.pick_var(ints).name, []])
+            else:
+                args.append(["c", d.pick(["0", "1", "5", "True", "False"])])
+        idx = len(st["stmts"])
+        tmp = f"_w{idx}"
+        st["stmts"].append(dict(k="dag", dag=inner, args=args, flag=None, out=[tmp], shape="whole", outkeys=[]))
+        if idag["has_flag"]:
+            st["has_flag"] = True
+        st["has_setup"] = st["has_setup"] or idag["has_setup"]
+        return tmp
+
     def gen_ret(self, st: dict, depth: int, p6: bool = False) -> dict:
         d, p = self.d, self.prof
         real = self._returnable(st)
@@ -497,6 +537,8 @@ def render_stmt(s: dict, idx: int) -> str:
         call = f"{s['dag']}({', '.join(parts)})"
         if s["shape"] == "single":
             return f"{outs[0]} = {call}; _mark({idx}, {outs[0]})"
+        if s["shape"] == "whole":
+            return f"{outs[0]} = {call}; _mark({idx})"
         if s["shape"] in ("tuple", "list"):
             lhs = ", ".join(outs) + ("," if len(outs) == 1 else "")
             return f"{lhs} = {call}; _mark({idx}, {', '.join(outs)})"
@@ -511,7 +553,7 @@ def render_ret(ret: dict) -> str:
     sh = ret["shape"]
     if sh == "none":
         return "return None"
-    if sh == "single":
+    if sh in ("single", "pass"):
         return f"return {items[0]}"
     if sh == "tuple":
         return "return (" + ", ".join(items) + ("," if len(items) == 1 else "") + ")"
